@@ -278,7 +278,7 @@ func c05ModuleDir() string {
 		if err != nil {
 			panic("harness: " + err.Error())
 		}
-		goos.WriteFile(d+"/lm.risor", []byte("tbl := {\"b\": 2, \"a\": 1, \"c\": 3}\nfunc f(m) { out := []; for k, v := range m { out.append(k) }; for k, v := range tbl { out.append(k) }; return out }\n"), 0o644)
+		goos.WriteFile(d+"/lm.risor", []byte("tbl := {\"b\": 2, \"a\": 1, \"c\": 3}\nfunc f(m) { out := []; for k, v := range m { out.append(k) }; for k, v := range tbl { out.append(k) }; return out }\nfunc g3() { return 3 }\nfunc g4() { return 4 }\n"), 0o644)
 		c05Dir = d
 	})
 	return c05Dir
@@ -348,6 +348,16 @@ func genC05Program(g *sim.Stream, tier string) string {
 	}
 	if useLocal {
 		fmt.Fprintf(&b, "import lm\nemits(string(lm.f(%s)))\n", cg.mapExpr(1))
+		if g.Bool() {
+			// several names taken out of one module in one statement, some
+			// under another name
+			b.WriteString([]string{
+				"from lm import f as lf, tbl as lt, g3\nemits(string(lf(lt)))\nemit(0, g3())\n",
+				"from lm import (tbl, f, g3 as three, g4)\nemits(string(f(tbl)))\nemit(0, three() + g4())\n",
+				"func lfn() {\n from lm import g4 as a4, g3 as a3, tbl as t\n return [a3(), a4(), t]\n}\nemits(string(lfn()))\n",
+				"from lm import g3 as gg, g4, f as ff\nemit(0, gg() + g4())\nemits(string(ff({})))\n",
+			}[g.Intn(4)])
+		}
 	}
 	// extra observable uses of containers
 	maps := cg.varsOf(tMap, false)
@@ -526,6 +536,15 @@ func runC05(rc *fw.RunCtx) {
 	}
 	_ = basePol
 	_ = garbage
+	for i := 0; i < 3; i++ {
+		psrc, problem := c05SortedProbe(g)
+		rc.Count("sorted_order_probes", 1)
+		if problem != "" {
+			rc.Sample = map[string]any{"program": psrc, "problem": problem}
+			rc.Violate("sorted-order/"+strings.SplitN(problem, ":", 2)[0], "members of one type do not come out in sorted order: %s\n program: %s", problem, psrc)
+			return
+		}
+	}
 	rc.NonTrivial = len(visited) > 0
 	rc.Digest = sim.HashString(src)
 	for s, n := range visited {
@@ -545,4 +564,127 @@ func renderObs(o *c05Obs) string {
 		log = log[:300] + "…"
 	}
 	return fmt.Sprintf("stage=%q err=%q result=%s bytecode=%dB log=%q", o.Stage, o.Err, o.Result, len(o.Bytecode), strings.ReplaceAll(log, "\n", " "))
+}
+
+// c05SortedProbe is the literal half of "maps and sets iterate and print in
+// sorted order": a set (or map) of same-typed members, written in tape order,
+// must list, iterate and print in the natural order of the values, whatever
+// ordering key the implementation uses internally.
+func c05SortedProbe(g *sim.Stream) (src, problem string) {
+	kind := g.Intn(6)
+	defer func() {
+		if problem != "" {
+			problem = []string{"int", "string", "byte_slice", "float", "byte", "map-keys"}[kind] + ": " + problem
+		}
+	}()
+	n := g.Range(2, 9)
+	type member struct {
+		lit string
+		i   int64
+		s   string
+		f   float64
+	}
+	seen := map[string]bool{}
+	var ms []member
+	for tries := 0; len(ms) < n && tries < 64; tries++ {
+		var m member
+		switch kind {
+		case 0:
+			m.i = int64(g.Range(-1000, 1000))
+			if g.Chance(1, 4) {
+				m.i *= 1 << 33
+			}
+			m.lit = fmt.Sprintf("%d", m.i)
+		case 1, 5:
+			m.s = c05Word(g)
+			m.lit = fmt.Sprintf("%q", m.s)
+		case 2:
+			m.s = c05Word(g)
+			m.lit = fmt.Sprintf("byte_slice(%q)", m.s)
+		case 3:
+			m.f = float64(g.Range(-4000, 4000)) / 8
+			m.lit = fmt.Sprintf("float(%g)", m.f)
+		case 4:
+			m.i = int64(g.Intn(256))
+			m.lit = fmt.Sprintf("byte(%d)", m.i)
+		}
+		if seen[m.lit] {
+			continue
+		}
+		seen[m.lit] = true
+		ms = append(ms, m)
+	}
+	if n = len(ms); n < 2 {
+		return "", ""
+	}
+	var lits []string
+	for _, m := range ms {
+		lits = append(lits, m.lit)
+	}
+	var coll, listing string
+	if kind == 5 {
+		var ents []string
+		for i, l := range lits {
+			ents = append(ents, fmt.Sprintf("%s: %d", l, i))
+		}
+		coll = "{" + strings.Join(ents, ", ") + "}"
+		listing = []string{"c.keys()", "func() { acc := []; for k, _ := range c { acc.append(k) }; return acc }()", "func() { acc := []; for _, p := range c.items() { acc.append(p[0]) }; return acc }()", "sorted(c.keys())"}[g.Intn(4)]
+	} else {
+		coll = "{" + strings.Join(lits, ", ") + "}"
+		if g.Bool() {
+			coll = "set([" + strings.Join(lits, ", ") + "])"
+		}
+		listing = []string{"list(c)", "func() { acc := []; for x, _ := range c { acc.append(x) }; return acc }()", "func() { acc := []; for x := range c { acc.append(x) }; return acc }()", "c.union(set([])).list()", "list(c.intersection(c))"}[g.Intn(5)]
+	}
+	src = "c := " + coll + "\n" + listing + "\n"
+	res, err := risor.Eval(context.Background(), src)
+	if err != nil {
+		// a listing form this build does not accept says nothing about order
+		if _, err2 := risor.Eval(context.Background(), "c := "+coll+"\nc\n"); err2 != nil {
+			return src, "the collection itself failed: " + err2.Error()
+		}
+		return src, ""
+	}
+	l, ok := res.(*object.List)
+	if !ok || len(l.Value()) != n {
+		return src, fmt.Sprintf("listing gave %s, want a list of %d members", res.Inspect(), n)
+	}
+	sort.Slice(ms, func(a, b int) bool {
+		switch kind {
+		case 0, 4:
+			return ms[a].i < ms[b].i
+		case 3:
+			return ms[a].f < ms[b].f
+		}
+		return ms[a].s < ms[b].s
+	})
+	for i, it := range l.Value() {
+		good := false
+		switch v := it.(type) {
+		case *object.Int:
+			good = kind == 0 && v.Value() == ms[i].i
+		case *object.Byte:
+			good = kind == 4 && int64(v.Value()) == ms[i].i
+		case *object.String:
+			good = (kind == 1 || kind == 5) && v.Value() == ms[i].s
+		case *object.ByteSlice:
+			good = kind == 2 && string(v.Value()) == ms[i].s
+		case *object.Float:
+			good = kind == 3 && v.Value() == ms[i].f
+		}
+		if !good {
+			return src, fmt.Sprintf("position %d holds %s, the sorted order of the members puts %s there (listing: %s)", i, it.Inspect(), ms[i].lit, l.Inspect())
+		}
+	}
+	return src, ""
+}
+
+func c05Word(g *sim.Stream) string {
+	alpha := []rune("abAB09z~ _\u00e9")
+	n := g.Range(0, 6)
+	b := make([]rune, n)
+	for i := range b {
+		b[i] = alpha[g.Intn(len(alpha))]
+	}
+	return string(b)
 }
